@@ -38,6 +38,10 @@ def gen_parameters(rng):
     if rng.random() < 0.5:
         decls["Count"] = {"Type": "Number", "Default": rng.choice([3, "3", 0])}
         extra.pop("Count", None)
+    # constraints of a declaration are not the library's to enforce: a supplied value outside AllowedValues is still the value
+    for name, decl in decls.items():
+        if rng.random() < 0.25:
+            decl["AllowedValues"] = rng.choice([["never-this"], ["dev", "prod"], [80, 443]])
     if rng.random() < 0.5:
         ne = {"Type": "String", "NoEcho": rng.choice([True, "true", True])}
         r = rng.random()
